@@ -300,9 +300,20 @@ func c08ViaLoaders(run *evid.Run, n int) {
 	parallel(n, func(i int) {
 		codec := []string{"link", "cbor", "link2"}[i%3]
 		w := hx.NewWorld(run.Seed, 2, fmt.Sprintf("c08l-%d", i), "hash", codec)
+		// link codecs: the codec is built from a buffer the application wipes later, after some entries were written
+		var wipe func()
+		if codec != "cbor" && i%2 == 0 {
+			var lio iface.IO
+			lio, wipe = hx.LateWipeLinkIO(map[string]int{"link": 1, "link2": 2}[codec])
+			w.SetIO(lio)
+			run.Count("logs_written_with_a_key_buffer_wiped_midway", 1)
+		}
 		l := w.NewLog(i % 2)
 		written := map[string]iface.IPFSLogEntry{}
 		for k := 0; k < 4+i%7; k++ {
+			if wipe != nil && k == 2 {
+				wipe()
+			}
 			e, err := l.Append(w.Ctx, classPayload(payloadClasses[(i+k)%len(payloadClasses)], fmt.Sprintf("%d/%d/%d", run.Seed, i, k), rand.New(rand.NewSource(int64(i*100+k)))), &iface.AppendOptions{PointerCount: 1 << uint(k%5)})
 			if err != nil {
 				run.Violate("C08/create-error", det("codec", codec), nil, "append failed: %v", err)
@@ -310,6 +321,34 @@ func c08ViaLoaders(run *evid.Run, n int) {
 			}
 			written[e.GetHash().String()] = e
 		}
+		// the entry objects the log holds keep encoding to their identifier - also after logs configured with
+		// ANOTHER codec tried to merge this log (and were merged into): verification by a foreign codec must not
+		// leave anything behind in the entries
+		reencode := func(when string) {
+			for hsh, e := range written {
+				c, err := entry.ToMultihashWithIO(w.Ctx, e, store.New().API(), nil, w.IOv())
+				run.Count("reencode_checks_of_held_objects", 1)
+				if err != nil || c.String() != hsh {
+					run.Violate("C08/reencode-differs", det("codec", codec, "when", when), map[string]any{"case": i, "entry": hsh, "when": when, "next": len(e.GetNext()), "refs": len(e.GetRefs())},
+						"an entry the log holds no longer encodes to its identifier %s: %s gives %v (err %v), codec %s", when, hx.Short(hsh), c, err, codec)
+					return
+				}
+			}
+		}
+		reencode("right after the appends")
+		for _, oc := range []string{"cbor", "link", "link2"} {
+			if oc == codec {
+				continue
+			}
+			lo := w.LogOpts(w.LogID)
+			lo.IO = hx.IO(oc)
+			if foreign, err := ipfslog.NewLog(w.Store.API(), w.Idents[0], lo); err == nil {
+				_, _ = foreign.Append(w.Ctx, []byte("written under another codec"), nil)
+				_, _ = foreign.Join(l, -1) // refused or not: nothing of it may stick to the entries of l
+				run.Count("merges_attempted_across_codec_configurations", 1)
+			}
+		}
+		reencode("after logs configured with other codecs tried to merge this log")
 		mc, err := l.ToMultihash(w.Ctx)
 		if err != nil {
 			return
